@@ -352,7 +352,7 @@ def obligations(tier):
         for cfg in list(rt.CONFIGS) + list(rt.PVL_ONLY) + list(rt.PDS_ONLY):
             if cfg == "default" or rt.config(dia, cfg) is None:
                 continue
-            for shape in ("group", "wrapseq", "wrapstr", "nested", "two"):
+            for shape in ("group", "wrapseq", "wrapquote", "wrapstr", "nested", "two"):
                 obs.append(Surface(dialect=dia, shape=shape, n=1, cfg=cfg))
     return obs
 
